@@ -136,8 +136,13 @@ func (g gen) value(kind string) (string, string) {
 		return g.seq(), g.weirdInt()
 	case "seqs":
 		return g.list(g.seq, g.weirdInt), g.pick(g.weirdInt(), g.weirdStr(), strings.Repeat("1,", 2000)+"2")
-	case "num", "n", "limit", "page", "scan":
-		return g.smallNum(), g.pick(g.weirdInt(), "0", "100", "101") // large counts are bounded here, see F19
+	case "num", "n", "limit", "page":
+		return g.smallNum(), g.pick(g.weirdInt(), "0", "100", "101")
+	case "count":
+		// address counts cost milliseconds each and are unbounded in the API (finding F19): only
+		// unparsable or small values are generated, the large-count witness is in the corpus
+		return g.smallNum(), g.pick("", "0", "-1", "1.5", "1e3", "abc", "18446744073709551616", "99999999999999999999999999", "+5", " 5", "0x10",
+			"٣", "%00", "00000000000000000005", "100", "101", "NaN", "1,2")
 	case "bool":
 		return g.boolv(), g.pick(g.badBool(), g.weirdStr())
 	case "wid":
@@ -292,10 +297,10 @@ var endpoints = map[string][]endpoint{
 	"/api/v1/version":                      {{method: "GET"}},
 	"/api/v1/health":                       {{method: "GET"}},
 	"/api/v1/wallet":                       {{method: "GET", form: P("id", "wid")}},
-	"/api/v1/wallet/create":                {{method: "POST", form: P("seed", "seed", "label", "label", "type", "wtype", "encrypt", "bool", "password", "password", "scan", "scan", "bip44-coin", "coinint", "seed-passphrase", "password", "private-keys", "skeys", "xpub", "xpub")}},
-	"/api/v1/wallet/createTemp":            {{method: "POST", form: P("seed", "seed", "label", "label", "type", "wtype", "scan", "scan", "bip44-coin", "coinint", "seed-passphrase", "password", "private-keys", "skeys", "xpub", "xpub")}},
-	"/api/v1/wallet/newAddress":            {{method: "POST", form: P("id", "wid", "num", "num", "password", "password", "private-keys", "skeys")}},
-	"/api/v1/wallet/scan":                  {{method: "POST", form: P("id", "wid", "num", "num", "password", "password")}},
+	"/api/v1/wallet/create":                {{method: "POST", form: P("seed", "seed", "label", "label", "type", "wtype", "encrypt", "bool", "password", "password", "scan", "count", "bip44-coin", "coinint", "seed-passphrase", "password", "private-keys", "skeys", "xpub", "xpub")}},
+	"/api/v1/wallet/createTemp":            {{method: "POST", form: P("seed", "seed", "label", "label", "type", "wtype", "scan", "count", "bip44-coin", "coinint", "seed-passphrase", "password", "private-keys", "skeys", "xpub", "xpub")}},
+	"/api/v1/wallet/newAddress":            {{method: "POST", form: P("id", "wid", "num", "count", "password", "password", "private-keys", "skeys")}},
+	"/api/v1/wallet/scan":                  {{method: "POST", form: P("id", "wid", "num", "count", "password", "password")}},
 	"/api/v1/wallet/balance":               {{method: "GET", form: P("id", "wid")}},
 	"/api/v1/wallet/transactions":          {{method: "GET", form: P("id", "wid", "verbose", "bool")}},
 	"/api/v1/wallet/update":                {{method: "POST", form: P("id", "wid", "label", "label")}},
@@ -493,7 +498,7 @@ func (g gen) genericRequest(path string) string {
 	var kvs [][2]string
 	for i := 0; i < g.r.Intn(4); i++ {
 		n := names[g.r.Intn(len(names))]
-		v, bad := g.value(g.pick("addr", "txid", "seq", "bool", "wid", "uxid", "num"))
+		v, bad := g.value(g.pick("addr", "txid", "seq", "bool", "wid", "uxid", "count"))
 		if g.r.Bool() {
 			v = bad
 		}
@@ -510,9 +515,12 @@ func (g gen) genericRequest(path string) string {
 }
 
 func c28Gen(r *Rng, tier string, emit func(string)) {
+	// hlib seeds SplitMix64 with seed*GOLDEN+c, so consecutive seeds give the same stream shifted by one
+	// draw; re-seed from the first output to get unrelated streams per seed
+	r = NewRng(r.U64() ^ 0x5DEECE66D)
 	routes := loadRoutes()
 	g := gen{r}
-	cases, perCase := 40, 450
+	cases, perCase := 30, 450
 	if tier == "thorough" {
 		cases, perCase = 300, 800
 	}
